@@ -3,4 +3,23 @@
     }
     pub mod tls {
         pub use crate::shims::net::TlsClientConfig;
+        pub mod client {
+            use vstd::prelude::*;
+            use crate::client::channel::{Channel, ClientTask};
+            use crate::client::listener::{ClientState, Listener};
+            use crate::retry::RetryStrategy;
+            use crate::shims::net::{HostAddr, TlsClientConfig};
+            use crate::tcp::client::{TcpChannelTask, TcpTaskConnectionHandler};
+            use crate::types::ClientOptions;
+            use crate::shims::tokio;
+// [C09] a TLS channel is a channel task whose connection handler is the TLS upgrade under exactly the configuration it was given
+// (everything else as for the plain TCP channel)
+//@fn rodbus/src/tcp/tls/client.rs | create_tls_channel | tags=C09,C10,C12,C13,C20
+//@|    ensures r.1.is_tcp_task(), r.1.tcp_task().wf(), r.1.tcp_task().states() == listener.log(),
+//@|        r.1.tcp_task().connection_handler matches TcpTaskConnectionHandler::Tls(c) && c.id == tls_config.id,
+//@|        r.1.tcp_task().client_loop.decode == options.decode_level, !r.1.tcp_task().client_loop.enabled,
+//@|        options.max_timeouts is None ==> r.1.tcp_task().client_loop.timeout_counter.limit() is None,
+//@|        options.max_timeouts is Some ==> r.1.tcp_task().client_loop.timeout_counter.limit() == Some(crate::nz_value(options.max_timeouts->Some_0)),
+//@|        r.1.tcp_task().client_loop.rx.0.chan == r.0.tx.chan,
+        }
     }
